@@ -20,6 +20,9 @@ Next == DoReset \/ DoStep
 Spec == Init /\ [][Next]_vars
 
 Bound == TLCGet("level") <= MaxLevel
+\* spec -> code: print every reachable (configuration, wrapped state, episode clock); lvf/props/c01.py executes every action of
+\* the configuration from every one of these states on the real objects (edge cover of the bounded model's state graph)
+BoundEmit == Bound /\ (E!Started => PrintT(<<"ST", cfg.id, st.s, st.cnt, eplen>>))
 
 ObsIsOfState == E!ObsIsOfState
 FreshIffDone == E!FreshIffDone
